@@ -63,7 +63,15 @@ def main(argv=None):
     if a.replay:
         with open(a.replay) as f:
             rp = json.load(f)
-        r = P.replay(rp["verdict"])
+        import contextlib
+        import io
+
+        buf = io.StringIO()
+        with contextlib.redirect_stdout(buf), contextlib.redirect_stderr(io.StringIO()):
+            try:
+                r = P.replay(rp["verdict"])
+            except BaseException as e:  # noqa
+                r = {"reproduced": False, "key": None, "detail": f"replay crashed: {type(e).__name__}: {e}"}
         print(json.dumps(r, indent=1, default=str))
         return 1 if r.get("reproduced") else 0
 
@@ -92,9 +100,23 @@ def main(argv=None):
     # translator validation against the real implementation
     validated = 0
     val_error = None
-    if hasattr(P, "validate"):
+    if hasattr(P, "validate") and not a.jobs:
         try:
-            validated = int(P.validate(seed, a.tier))
+            vr = P.validate(seed, a.tier)
+            if isinstance(vr, tuple):
+                validated = int(vr[0])
+                vjob = getattr(P, "VALIDATE_JOB", "validation")
+                seen_c = set()
+                for f in vr[1]:
+                    if f["obligation"] in seen_c:
+                        continue
+                    seen_c.add(f["obligation"])
+                    f = dict(f, job=vjob)
+                    verdicts.append(f)
+                    counted.append(f)
+                    sat.append(f)
+            else:
+                validated = int(vr)
         except BaseException as e:  # noqa
             val_error = f"{type(e).__name__}: {e}\n{traceback.format_exc()}"
 
@@ -103,15 +125,32 @@ def main(argv=None):
     open_keys = {f["key"]: f for f in findings if f.get("status") == "open"}
     violations, known_hit, not_reproduced = [], {}, []
     seen_keys = set()
-    for v in sat:
-        try:
-            import contextlib
-            import io
+    import re as _re
+    import subprocess
+    import tempfile
 
-            with contextlib.redirect_stdout(io.StringIO()), contextlib.redirect_stderr(io.StringIO()):
-                r = P.replay(v)
-        except BaseException as e:  # noqa
-            r = {"reproduced": False, "key": None, "detail": f"replay crashed: {type(e).__name__}: {e}"}
+    def _group(v):
+        return (v.get("job", ""), _re.sub(r"\[p\d+\]", "[p]", v["obligation"]))
+
+    replayed = {}
+    for v in sat:
+        gk = _group(v)
+        if gk in replayed:
+            r = dict(replayed[gk])
+        else:
+            # every replay runs in a fresh interpreter: no state left behind by the harness, the
+            # validation runs or an earlier replay can influence it
+            try:
+                with tempfile.NamedTemporaryFile("w", suffix=".json", delete=False) as tf:
+                    json.dump({"property": pid, "verdict": v}, tf, default=str)
+                env = dict(os.environ)
+                pr = subprocess.run([sys.executable, "-W", "ignore", "-m", "symnp.main", pid, "--replay", tf.name], capture_output=True, text=True, timeout=900, env=env, cwd=VERIF)
+                os.unlink(tf.name)
+                txt = pr.stdout
+                r = json.loads(txt[txt.index("{"):txt.rindex("}") + 1]) if "{" in txt else {"reproduced": False, "key": None, "detail": "replay produced no result: " + pr.stderr[-300:]}
+            except BaseException as e:  # noqa
+                r = {"reproduced": False, "key": None, "detail": f"replay crashed: {type(e).__name__}: {e}"}
+            replayed[gk] = r
         v["replay"] = r
         if r.get("reproduced"):
             key = r.get("key") or v["obligation"]
